@@ -309,7 +309,11 @@ class Run(RunBase):
         if self.prop == "C35":
             return self.propose_c35(rng, occd, unoc)
         if self.prop == "C34" and rng.random() < 0.45:
+            if rng.random() < 0.15:
+                return {"op": "dball"}
             return {"op": "db", "n": rng.randrange(64), "stay": rng.random() < 0.6}
+        if self.prop == "C33" and rng.random() < 0.04:
+            return {"op": "sweep"}
         x = rng.random()
         if x < 0.08:
             return self.gen_start(rng)
@@ -554,6 +558,41 @@ class Run(RunBase):
         if len(ij) < len(self.mc.jumps):
             self.probes["forbidden-transition"] += 1
         return "T{}:{}".format(len(ij), ",".join(fhex(q) for q in Q[:6]))
+
+    def op_sweep(self, index, op):
+        """Bounded local exhaustion inside a history: from the current state, every single-site flip and (in
+        small cells) every swap is announced, performed, compared and undone."""
+        if self.prop != "C33":
+            return "skip"
+        mc = self.mc
+        E0 = mc.E()
+        sites = [i for i in range(self.n) if i != self.vacsite]
+        moves = [((i,), ()) if self.mocc[i] == 0 else ((), (i,)) for i in sites]
+        if self.n <= 12:
+            moves += [((i,), (j,)) for i in sites for j in sites if self.mocc[i] == 0 and self.mocc[j] == 1]
+        for a, b in moves[:200]:
+            d = mc.deltaE_trial(a, b)
+            mc.update(a, b)
+            E1 = mc.E()
+            self.checks += 1
+            if not self.W.close(E1 - E0, d):
+                self.fail("trial-vs-diff", "sweep: deltaE_trial({},{}) announced {!r} but E changed by {!r} (from {})".format(
+                    a, b, d, E1 - E0, occ_to_str(self.mocc)))
+            mc.update(b, a)
+            if not self.W.close(mc.E(), E0):
+                self.fail("E-fresh", "sweep: undoing update({},{}) did not restore E".format(a, b))
+        self.probes["local-sweep-moves"] += min(len(moves), 200)
+        return "sweep{}".format(min(len(moves), 200))
+
+    def op_dball(self, index, op):
+        """Every transition reported at the current state is checked (performed and undone)."""
+        if not self.w["jumps"] or self.prop != "C34":
+            return "skip"
+        n = len(self.mc.transitions()[0])
+        for k in range(min(n, 48)):
+            self.op_db(index, {"n": k, "stay": False})
+        self.probes["all-transitions-swept"] += 1
+        return "dball{}".format(min(n, 48))
 
     # ------------------------------------------------------------------ C34
     def find_reverse(self, trans, i, j, dx):
